@@ -1,5 +1,5 @@
 "C01 — markup expansion reproduces the element tree the operators denote"
-import re
+import re, os
 from hypothesis import strategies as st
 from vlib import core, abbr_model as M, abbr_gen as G
 from vlib.core import guard
@@ -157,3 +157,9 @@ def run(ctx):
     ctx.exhaustive('every group-free skeleton with exactly %d elements' % nf)
     ctx.run_parallel('shard_random', extra=(ctx.pick(250, 4000), False))
     ctx.run_parallel('shard_random', extra=(ctx.pick(60, 800), True))
+    if ctx.thorough or os.environ.get('VERIF_FUZZ'):
+        ctx.run_atheris('tree', ctx.pick(1500, 20000), guided=True)
+
+
+# coverage-guided layer (thorough tier): the script strategy under libFuzzer (vlib/fuzz.py, guided mode)
+GUIDED = {'tree': lambda: strategy(P_RANDOM)}
